@@ -475,7 +475,7 @@ class Func:
         return self.state_before(IN, ev, tr)
 
     # paths ----------------------------------------------------------------
-    def paths(self, limit=20000, prune=True):
+    def paths(self, limit=20000, prune=True, loop_fragments=False):
         """Enumerate acyclic entry→exit paths (each back edge taken at most 0 times): list of
         [(block_id, branch_atoms)] where branch_atoms is the list of atoms assumed when leaving the block."""
         res = []
@@ -489,6 +489,11 @@ class Func:
                 return
             for (s, cond, br) in self.edges(b):
                 if (b, s) in back:
+                    if loop_fragments:
+                        # a path that ends by going round a loop (needed for bodies of non-terminating loops)
+                        at2 = atoms(cond, br) if (cond is not None and br in (True, False)) else []
+                        if not prune or all(assumed.get(a, p) == p for (a, p) in at2):
+                            res.append(list(path) + [(b, at2)])
                     continue
                 at = []
                 if cond is not None and br in (True, False):
